@@ -15,7 +15,10 @@ ASSUMPTIONS = ["clock not before 2000-01-01 (dtn_time_now underflows otherwise; 
 _B = {}
 
 
-def _bundle(hop=None, age=None, prev=True, t=1000, life=3600000, extra_first=False, seq=0, bflags=(0, 0, 0)):
+CRC_STATES = [("N",), ("N",), ("E16",), ("E32",), ("V16", b"\x12\x34"), ("V32", b"\xde\xad\xbe\xef"), ("V32", b"\x00\x00\x00\x00"), ("V16", b"\x00\x00")]
+
+
+def _bundle(hop=None, age=None, prev=True, t=1000, life=3600000, extra_first=False, seq=0, bflags=(0, 0, 0), crcs=None):
     p = dict(ver=7, flags=0, crc=("N",), dst=("DTN", 1, b"//d/x"), src=("DTN", 1, b"//s/y"), rpt=("NONE", 1, 0), t=t, seq=seq,
              life=life, foff=0, flen=0)
     cs = []
@@ -30,6 +33,11 @@ def _bundle(hop=None, age=None, prev=True, t=1000, life=3600000, extra_first=Fal
         cs.append(dict(type=6, num=n, flags=bflags[2], crc=("N",), data=("PREV", ("DTN", 1, b"//old/"))))
         n -= 1
     cs.append(dict(type=1, num=1, flags=0, crc=("N",), data=("DATA", b"p")))
+    if crcs is not None:
+        # stored CRC states (a decoded bundle carries calculated values): the update changes block DATA only, never a CRC type or value
+        p["crc"] = crcs[0]
+        for c, k in zip(cs, crcs[1:]):
+            c["crc"] = k
     return dict(p=p, cs=cs)
 
 
@@ -97,7 +105,8 @@ def cases(rng, tier):
         hop = rng.choice([None, None, (32, 1), (rng.randrange(256), rng.randrange(256)), (255, 254), (255, 255), (0, 0)])
         node = rng.choice([NODE, ("IPN", 2, 23, 0), ("NONE", 1, 0)])
         out.append(_line(_bundle(hop=hop, age=age, prev=rng.random() < 0.6, t=t, life=L, seq=rng.choice([0, 0, 1, 40, U64 - 1, rnd_u64(rng)]),
-                                 bflags=tuple(rng.choice([0, 0, 0, 1, 4, 16, 0xF0, 0xFF, 8, rng.randrange(256)]) for _ in range(3))), now, node, rt,
+                                 bflags=tuple(rng.choice([0, 0, 0, 1, 4, 16, 0xF0, 0xFF, 8, rng.randrange(256)]) for _ in range(3)),
+                                 crcs=None if rng.random() < 0.5 else [rng.choice(CRC_STATES) for _ in range(5)]), now, node, rt,
                          lifens=rng.choice([None, None, None, 1, 999999, rng.randrange(1000000)])))
     # OPSA: the same call answered by the second model (update_extensions written with the block-level operations hop_count_get /
     # _increase / _exceeded, previous_node_update, bundle_age_get / _update of Model/Api.v; C08_code_structure proves the two equal)
